@@ -27,11 +27,13 @@
   resp.interpret <api> <arg> <roundtrip>
     api = request | exec      arg = requested operation         answer  ok <payload> | err | err item … | panic
     api = batch               arg = op,op,…  (or - for none)    answer  ok [p,p,…] <errs> | err | panic
-                                                                 errs = - or item …;item …
+                                                                 errs = - (Unwrap error nil) | item …;item … | other
     api = dial                arg = the client's version list   answer  ok M.m | err | err item … | panic
-    `err item <op> <status> <reason> <msg>`: the rendering inputs of ResponseBatchItem.Err()
-    (EnumStr strings: registered name or 0x%08X; msg in hex or -). An error whose text has several
-    lines (errors.Join of a refused batch response): `err join <l>;<l>…`, l = `item …` | `other`.
+    An error is compared by WHAT IT CARRIES, not by its wording: `err` followed by one
+    `item <status> <reason> <msg>` per failed item it reports (EnumStr strings of the live registry:
+    registered name or 0x%08X; msg in hex or -), `;`-separated, in item order. The harness derives the
+    same form from the Go error text and the response the client received (an item is carried when
+    the three renderings occur in the text).
 
   resp.enumstr <op|status|reason> <value>   answer  the EnumStr string
   resp.registered <op>                      answer  yes | no
@@ -141,23 +143,34 @@ def renderEStr : EStr → String
   | .name c => String.ofList ((Kmip.Reg.unpack c).map Char.ofNat)  -- live registry names carry a leading 0x01
   | .hex v => hex8 v
 
-def renderLine : ItemErr → String
-  | .item o s r m => "item " ++ renderEStr o ++ " " ++ renderEStr s ++ " " ++ renderEStr r ++ " " ++ renderMsg m
-  | _ => "other"
+/-- the part of an error the property speaks about: status, reason and message of a failed item
+    (the operation name and the wording around them are not compared). -/
+def renderCarried (s r : EStr) (m : Msg) : String :=
+  "item " ++ renderEStr s ++ " " ++ renderEStr r ++ " " ++ renderMsg m
 
-/-- an error by the lines of its text: one line = `err item …` / `err`; several (errors.Join) =
-    `err join <line>;<line>…` with line = `item …` or `other`. -/
+def carriedOfLine : ItemErr → Option String
+  | .item _ s r m => some (renderCarried s r m)
+  | _ => none
+
+def carriedOfErr : Err → Option String
+  | .item _ s r m => some (renderCarried s r m)
+  | _ => none
+
+/-- an error by what it carries: `err` followed by the failed items it reports (`;`-separated, in item
+    order); violations of the response shape contribute nothing. -/
 def renderErr : Err → String
-  | .item o s r m => "err item " ++ renderEStr o ++ " " ++ renderEStr s ++ " " ++ renderEStr r ++ " " ++ renderMsg m
+  | .item _ s r m => "err " ++ renderCarried s r m
   | .joined ls =>
-    match ls.map renderLine with
-    | [l] => if l = "other" then "err" else "err " ++ l
-    | lines => "err join " ++ ";".intercalate lines
+    match ls.filterMap carriedOfLine with
+    | [] => "err"
+    | items => "err " ++ ";".intercalate items
   | _ => "err"
 
-def renderItemErr : Err → String
-  | .item o s r m => "item " ++ renderEStr o ++ " " ++ renderEStr s ++ " " ++ renderEStr r ++ " " ++ renderMsg m
-  | _ => "other"
+/-- the error of `Unwrap` (non-empty list). -/
+def renderUnwrapErrs (es : List Err) : String :=
+  match es.filterMap carriedOfErr with
+  | [] => "other"
+  | items => ";".intercalate items
 
 def parseCalls (s : String) : Option (List (List Ver)) :=
   if s = "-" then some []
@@ -224,7 +237,7 @@ def respInterpret (api arg rts : String) : String :=
         match batchUnwrap stdTables ops rt with
         | .ok (ps, es) =>
           "ok [" ++ ",".intercalate (ps.map renderPayload) ++ "] " ++
-            (if es.isEmpty then "-" else ";".intercalate (es.map renderItemErr))
+            (if es.isEmpty then "-" else renderUnwrapErrs es)
         | .err e => renderErr e
         | .panic => "panic"
       | none => "bad-op"
